@@ -28,7 +28,7 @@ MAP = {
  'transport-dropnode-keeps-address': ['C14'], 'transport-wrong-sender': ['C14'], 'tcp-no-read-timeout': ['C14'], 'transport-send-true-when-connecting': ['C14'],
  'sync-shared-result': ['C19'], 'queue-drops-when-busy': ['C19'], 'callback-on-queue-full-and-enqueue': ['C19', 'C02'], 'forwarded-reply-wrong-request': ['C19', 'C02'],
  'backoff-no-truncate': ['C05'],
- 'reqid-not-unique': ['C06'], 'transfer-not-cancelled-on-connect': ['C09'], 'transfer-not-cancelled-on-disconnect': ['C09', 'C01'], 'snapshot-pieces-not-acknowledged': ['C05'], 'transfer-continued-across-terms': ['C01', 'C09'], 'reply-term-ignored': ['C04', 'C01'], 'snapshot-speculative-members': ['C10'], 'truncate-always': ['C04', 'C18'], 'snapshot-install-clears-log': ['C04', 'C01'], 'snapshot-failed-load-acked': ['C04', 'C09'],
+ 'reqid-not-unique': ['C06'], 'journal-after-older-dump-cleared': ['C06'], 'transfer-not-cancelled-on-connect': ['C09'], 'transfer-not-cancelled-on-disconnect': ['C09', 'C01'], 'snapshot-pieces-not-acknowledged': ['C05'], 'transfer-continued-across-terms': ['C01', 'C09'], 'reply-term-ignored': ['C04', 'C01'], 'snapshot-speculative-members': ['C10'], 'truncate-always': ['C04', 'C18'], 'snapshot-install-clears-log': ['C04', 'C01'], 'snapshot-failed-load-acked': ['C04', 'C09'],
 }
 
 # mutants judged NOT to break any listed property (kept in the table for honesty: "not detected" is the right answer)
